@@ -375,3 +375,54 @@ def write_once_fields(P: Program, rel: str, cls: str, selfname: str = "self") ->
             continue
         out[f"{selfname}.{attr}"] = vals[0]
     return out
+
+
+def inline_simple_calls(P: Program, e: ast.expr, depth: int = 3) -> ast.expr:
+    """Replace calls  X.m(a1..)  of package methods whose body is a single `return <expr>` (docstring allowed) by that
+    expression with self -> X and parameters -> arguments.  Methods defined under several classes are inlined only if
+    all definitions are textually identical."""
+    import copy
+
+    class T(ast.NodeTransformer):
+        def visit_Call(self, c: ast.Call):
+            c = self.generic_visit(c)
+            if not isinstance(c.func, ast.Attribute) or c.keywords:
+                return c
+            name = c.func.attr
+            defs = [cl.methods[name] for m in P.real_modules() for cl in m.classes.values() if name in cl.methods]
+            if not defs or len({ast.dump(d.node) for d in defs}) != 1:
+                return c
+            d = defs[0]
+            if any(isinstance(x, ast.Name) and x.id == "property" for x in d.decorators()):
+                return c
+            body = [s for s in d.node.body if not (isinstance(s, ast.Expr) and isinstance(s.value, ast.Constant))]
+            if len(body) != 1 or not isinstance(body[0], ast.Return) or body[0].value is None:
+                return c
+            params = d.params()
+            if len(params) != len(c.args) + 1:
+                return c
+            env = {params[0]: c.func.value}
+            for p_, a in zip(params[1:], c.args):
+                env[p_] = a
+            return norm.Subst(env).visit(norm.clone(body[0].value))
+
+    out = norm.clone(e)
+    for _ in range(depth):
+        new = T().visit(norm.clone(out))
+        if ast.dump(new) == ast.dump(out):
+            break
+        out = new
+    return out
+
+
+def inline_properties(P: Program, e: ast.expr, rel: str, cls: str, selfname: str = "self") -> ast.expr:
+    """self.<prop> -> body of the @property (single return)."""
+    import copy
+    c = P.cls(rel, cls)
+    env = {}
+    for name, m in c.methods.items():
+        if any(isinstance(x, ast.Name) and x.id == "property" for x in m.decorators()):
+            body = [s for s in m.node.body if not (isinstance(s, ast.Expr) and isinstance(s.value, ast.Constant))]
+            if len(body) == 1 and isinstance(body[0], ast.Return) and body[0].value is not None:
+                env[f"{selfname}.{name}"] = norm.Subst({"self": ast.Name(selfname, ast.Load())}).visit(norm.clone(body[0].value))
+    return norm.subst(e, env)
